@@ -87,6 +87,7 @@ def make_scenario(k, rng, sources):
     sc['toml_lists'] = c14.random_lists(_T[0], rng) if sc['use_toml'] else None
     # the analysed directory named by the configuration file (no --path), the file itself lying in another directory
     sc['path_from_toml'] = bool(sc['use_toml'] and sc['fail'] is None and rng.random() < 0.6)
+    sc['then_other'] = bool(sc['fail'] is None and rng.random() < 0.5)
     sc['stale_seed'] = rng.getrandbits(32)
     return sc
 
@@ -279,6 +280,39 @@ def one_scenario(binpath, sc, sources, root, verbose=False):
         else:
             if ref_rc == 0 and sc['fail'] != 'report-is-a-directory':
                 problems.append('run %d failed with exit %d, the reference run of the same tree succeeded' % (rnd + 1, rc))
+    # a further run from the same working directory on ANOTHER directory (older files, other contents): the report left
+    # by the runs above is in the way and must be replaced by exactly the report of that directory
+    if sc['fail'] is None and sc.get('then_other') and not problems and prev_bytes is not None:
+        tree2 = os.path.join(top, 'proj', 'tree2')
+        os.makedirs(os.path.join(tree2, 'inner'))
+        k2 = (sc['k'] * 7 + 3) % len(sources)
+        open(os.path.join(tree2, 'Other.sol'), 'w', encoding='utf-8', newline='').write(sources[k2])
+        open(os.path.join(tree2, 'inner', 'More.sol'), 'w', encoding='utf-8', newline='').write(sources[(k2 + 1) % len(sources)])
+        old = time.time() - 86400 * 30
+        for dp, dn, fn in os.walk(tree2):
+            for name in dn + fn:
+                os.utime(os.path.join(dp, name), (old, old))
+        os.utime(tree2, (old, old))
+        refdir = os.path.join(root, 'ref2')
+        shutil.rmtree(refdir, ignore_errors=True)
+        os.makedirs(refdir)
+        rc_ref, _ = run_bin(binpath, refdir, ['--path', tree2])
+        ref2 = open(os.path.join(refdir, REPORT), 'rb').read() if os.path.isfile(os.path.join(refdir, REPORT)) else None
+        before = snapshot(top)
+        rc2, err2 = run_bin(binpath, cwd, ['--path', tree2])
+        after = snapshot(top)
+        facts['exits'].append(rc2)
+        d2 = [x for x in diff_snap(before, after) if not (x[1] == rp_rel or (x[1] == cwd_rel and x[0] == 'changed:mtime'))]
+        if d2:
+            problems.append('the run on a second directory changed the file system beyond %s: %s' % (rp_rel, d2[:6]))
+        now2 = open(os.path.join(cwd, REPORT), 'rb').read() if os.path.isfile(os.path.join(cwd, REPORT)) else None
+        if rc2 != rc_ref:
+            problems.append('the run on a second directory exits %d, the same run from a fresh working directory %d' % (rc2, rc_ref))
+        elif rc2 == 0 and now2 != ref2 and sorted((now2 or b'').split(b'\n')) != sorted((ref2 or b'').split(b'\n')):
+            problems.append('after a run on one directory, the run on a second directory (argv --path %s) leaves a report that is not the '
+                            'report of that directory produced from a fresh working directory (%d vs %d bytes): the report of the earlier run '
+                            'influenced the result' % (os.path.relpath(tree2, top), len(now2 or b''), len(ref2 or b'')))
+        facts['second_directory_run'] = True
     return problems, facts, toml_rec
 
 
